@@ -101,6 +101,7 @@ func main() {
 	replays := flag.String("replays", "/verif/replays", "directory for replay files")
 	known := flag.String("known", "/verif/known-findings.json", "known findings file")
 	only := flag.String("func", "", "verify only this function key (debugging)")
+	baseline := flag.String("baseline", "", "git repository whose HEAD is the baseline for local-variable renames (default: -repo)")
 	dump := flag.String("dump", "", "directory to keep SMT queries (debugging)")
 	timeout := flag.Int("timeout", 0, "per-query timeout in seconds (default 10 quick / 60 thorough)")
 	verbose := flag.Bool("v", false, "verbose")
@@ -121,6 +122,7 @@ func main() {
 		fail("%v", err)
 	}
 	g.cs = cs
+	g.inferRenames(*repo, *baseline)
 	g.lockObls = true
 	tmo := *timeout
 	if tmo == 0 {
